@@ -169,7 +169,10 @@ def run(ctx):
         return replay(ctx)
 
     # ---- 1. model pass + case generation
-    cfgs_used = ["Gen_Policies_quick.cfg"] if quick else ["Gen_Policies_thorough_a.cfg", "Gen_Policies_thorough_b.cfg"]
+    # *_racks: one datacenter with up to 4 hosts in 2 racks (runs of same-rack hosts on the ring, racks
+    # r1 r1 r1 r2), replication factor 3 > number of racks and > number of hosts
+    cfgs_used = ["Gen_Policies_quick.cfg", "Gen_Policies_quick_racks.cfg"] if quick else [
+        "Gen_Policies_thorough_a.cfg", "Gen_Policies_thorough_b.cfg", "Gen_Policies_quick_racks.cfg"]
     cases, gens = [], []
     for cfg in cfgs_used:
         gen = vf.tlc_must_pass(ctx, "Gen_Policies", cfg, workers=DEV_WORKERS, heap="8g", timeout=400 if quick else 2400,
